@@ -76,6 +76,12 @@ CHECKS = {
                      "quantities symbolic: bake raises iff the eager fold raises, the result dictionary has exactly the "
                      "declared and created names, and every container/well has the same substances, amounts and volume "
                      "as the fold; adding steps changes nothing before bake."),
+    'C09': dict(engine=E1, design='§4 C09',
+                technique="symbolic execution of bake + get_substance_used vs a step-boundary ledger from an eager interpreter; z3 decides each reported==ledger obligation with output rounding modelled",
+                text="for baked programs over the C08 templates with every stage split point, substances water/NaCl(/DMSO), "
+                     "several units, timeframes all/s1/s2 and destination sets (default, singletons, all, a pair): the "
+                     "reported amount equals net gain of the destinations + discarded within output rounding, a "
+                     "ValueError iff the ledger shows a net decrease, and stage amounts add up."),
     'C02': dict(engine=E1, design='§4 C02',
                 technique="symbolic execution of Container.transfer/Plate.transfer with z3 (QF_NRA/LRA), differential vs independent unit table",
                 text="size of the aliquot (in the unit of q), uniformity (cross-multiplied ratios) and destination gain "
